@@ -1,6 +1,7 @@
 import Postcard.Model.Json
 import Postcard.Model.Schema
 import Postcard.Model.DataModel
+import Postcard.Model.SchemaSer
 /-
   Postcard.Model.JsonOf — model of `serde_json::to_value(&v)` for a serde value
   (serde_json-1.0.140/src/value/ser.rs, `impl Serializer for value::Serializer`).
@@ -10,6 +11,11 @@ import Postcard.Model.DataModel
   with what a JSON serializer sees and postcard does not: field names
   (struct, struct variant) and variant names (all four variant kinds).
   `erase` forgets them.  Maps stay flat (`k₀ v₀ k₁ v₁ …`) as in `Val`.
+  A value of the `Schema` kind (an `OwnedDataModelType`) is carried as the
+  schema itself: `.schema s`, with `erase = serOwned s` (Model/SchemaSer.lean:
+  serde-derive's `Serialize`) and `toJson = jsonOfSchema s` (Model/Json.lean).
+  Helper names carry an `N` (`conformsNAll`, …) to stay clear of
+  Spec/Conforms.lean.
   Core Lean only.
 -/
 namespace Postcard
@@ -37,7 +43,8 @@ inductive NVal
   | map (kvs : List NVal)
   | struct (names : List Name) (vs : List NVal)
   | structVariant (idx : Nat) (vname : Name) (names : List Name) (vs : List NVal)
-  deriving Repr, Inhabited
+  | schema (s : Schema)
+  deriving Inhabited
 
 mutual
 /-- forget the names. -/
@@ -64,6 +71,7 @@ def erase : NVal → Val
   | .map kvs => .map (eraseList kvs)
   | .struct _ vs => .struct (eraseList vs)
   | .structVariant idx _ _ vs => .structVariant idx (eraseList vs)
+  | .schema s => serOwned s
 def eraseList : List NVal → List Val
   | [] => []
   | v :: vs => erase v :: eraseList vs
@@ -120,6 +128,7 @@ def toJson (fo : FloatOps) : NVal → Json
   | .struct names vs => .obj (objInsertAll [] (zipNames names (toJsonList fo vs)))   -- serialize_struct → map
   | .structVariant _ name names vs =>                          -- serialize_struct_variant
     .obj [(name, .obj (objInsertAll [] (zipNames names (toJsonList fo vs))))]
+  | .schema s => jsonOfSchema s                                -- derive(Serialize) for OwnedDataModelType
 def toJsonList (fo : FloatOps) : List NVal → List Json
   | [] => []
   | v :: vs => toJson fo v :: toJsonList fo vs
@@ -193,11 +202,11 @@ def conformsN : NVal → Schema → Bool
   | .unit, .unit => true
   | .unitStruct, .struct _ .unit => true
   | .newtypeStruct v, .struct _ (.newtype t) => conformsN v t
-  | .seq vs, .seq t => conformsAll vs t && decide (vs.length < 2 ^ 64)
+  | .seq vs, .seq t => conformsNAll vs t && decide (vs.length < 2 ^ 64)
   | .tuple vs, .tuple ts => conformsNs vs ts
   | .tupleStruct vs, .struct _ (.tuple ts) => conformsNs vs ts
-  | .map kvs, .map k v => conformsKV kvs k v && decide (kvs.length / 2 < 2 ^ 64)
-  | .struct names vs, .struct _ (.struct fs) => conformsFields names vs fs
+  | .map kvs, .map k v => conformsNKV kvs k v && decide (kvs.length / 2 < 2 ^ 64)
+  | .struct names vs, .struct _ (.struct fs) => conformsNFields names vs fs
   | .unitVariant idx name, .enum _ vars =>
     decide (idx < 2 ^ 32) &&
     (match findVariant vars name 0 with
@@ -216,23 +225,24 @@ def conformsN : NVal → Schema → Bool
   | .structVariant idx name names vs, .enum _ vars =>
     decide (idx < 2 ^ 32) &&
     (match findVariant vars name 0 with
-     | .some (i, .struct fs) => decide (i = idx) && conformsFields names vs fs
+     | .some (i, .struct fs) => decide (i = idx) && conformsNFields names vs fs
      | _ => false)
+  | .schema s, .schema => s.wf                                 -- what an `OwnedDataModelType` can be
   | _, _ => false
 def conformsNs : List NVal → List Schema → Bool
   | [], [] => true
   | v :: vs, t :: ts => conformsN v t && conformsNs vs ts
   | _, _ => false
-def conformsAll : List NVal → Schema → Bool
+def conformsNAll : List NVal → Schema → Bool
   | [], _ => true
-  | v :: vs, t => conformsN v t && conformsAll vs t
-def conformsKV : List NVal → Schema → Schema → Bool
+  | v :: vs, t => conformsN v t && conformsNAll vs t
+def conformsNKV : List NVal → Schema → Schema → Bool
   | [], _, _ => true
-  | k :: v :: rest, kt, vt => conformsN k kt && conformsN v vt && conformsKV rest kt vt
+  | k :: v :: rest, kt, vt => conformsN k kt && conformsN v vt && conformsNKV rest kt vt
   | [_], _, _ => false
-def conformsFields : List Name → List NVal → List SField → Bool
+def conformsNFields : List Name → List NVal → List SField → Bool
   | [], [], [] => true
-  | n :: ns, v :: vs, .mk fname ty :: fs => decide (n = fname) && conformsN v ty && conformsFields ns vs fs
+  | n :: ns, v :: vs, .mk fname ty :: fs => decide (n = fname) && conformsN v ty && conformsNFields ns vs fs
   | _, _, _ => false
 end
 
